@@ -190,51 +190,16 @@ def reserved_set(ctx):
         if isinstance(n, ast.Assign) and norm(n.targets[0]) == 'no_wrap_identifier_regex' and isinstance(n.value, ast.Call):
             nw = const_str(n.value.args[0])
     ctx.need(base is not None and fn is not None and nw is not None, 'identifier.py: RESERVED_KEYWORDS / get_reserved_words / no_wrap regex not found')
-    loops = [n for n in fn.body if isinstance(n, ast.For)]
-    ctx.need(len(loops) == 1 and isinstance(loops[0].target, ast.Name), 'get_reserved_words: unmodelled shape')
-    lp = loops[0]
-    # the iterated set: set algebra over `<LexerClass>.tokens` of classes imported inside the function
-    from ..grammar import _SetEval, _module_of
-    imports = {}
-    for n in ast.walk(fn):
-        if isinstance(n, ast.ImportFrom) and n.module:
-            for a in n.names:
-                imports[a.asname or a.name] = (n.module, a.name)
-    se = _SetEval(ctx.src)
-
-    def evset(e):
-        if isinstance(e, ast.Attribute) and e.attr == 'tokens' and isinstance(e.value, ast.Name) and e.value.id in imports:
-            mod, cls = imports[e.value.id]
-            return set(se.lexer_tokens(_module_of(ctx.src, mod), cls))
-        if isinstance(e, ast.BinOp) and isinstance(e.op, (ast.BitOr, ast.Sub, ast.BitAnd)):
-            l, r = evset(e.left), evset(e.right)
-            return l | r if isinstance(e.op, ast.BitOr) else (l - r if isinstance(e.op, ast.Sub) else l & r)
-        if isinstance(e, ast.Set):
-            return {x.value for x in e.elts if isinstance(x, ast.Constant)}
-        if isinstance(e, ast.Call) and isinstance(e.func, ast.Attribute) and e.func.attr in ('union', 'difference'):
-            l = evset(e.func.value)
-            for a in e.args:
-                l = l | evset(a) if e.func.attr == 'union' else l - evset(a)
-            return l
-        raise AnalysisError(f'get_reserved_words: unmodelled set expression `{norm(e)}`')
-    toks = evset(lp.iter)
-    var = lp.target.id
-    out = set(base)
-    for t in toks:
-        env = {var: t}
-        def run(stmts):
-            for st in stmts:
-                if isinstance(st, ast.If):
-                    run(st.body if peval.ev(st.test, env) else st.orelse)
-                elif isinstance(st, ast.Expr) and isinstance(st.value, ast.Call) and isinstance(st.value.func, ast.Attribute) \
-                        and st.value.func.attr == 'add':
-                    out.add(peval.ev(st.value.args[0], env))
-                elif isinstance(st, ast.Expr) and isinstance(st.value, ast.Constant):
-                    pass
-                else:
-                    raise AnalysisError(f'get_reserved_words: unmodelled statement `{norm(st)}`')
-        run(lp.body)
-    return out, nw
+    # get_reserved_words interpreted (sa/interp.py); `<LexerClass>.tokens` are the statically extracted token sets of the lexer classes it imports
+    from ..interp import Interp, Raised, Env
+    it = Interp.for_file(ctx.src, IDENT, {}, C04.lexer_token_stubs(ctx))
+    try:
+        out = it.call_function(fn, [], {}, Env())
+    except Raised as r:
+        raise AnalysisError(f'get_reserved_words raises {r.exc_name}')
+    if not isinstance(out, (set, frozenset, list, tuple)) or not all(isinstance(x, str) for x in out):
+        raise AnalysisError('get_reserved_words does not return a collection of words')
+    return set(out), nw
 
 
 def check_reserved(ctx):
